@@ -135,6 +135,8 @@ impl StringNumber {
 
     fn normalize_scale(&mut self) {
         if self.point >= 0 {
+            // a fraction which is multiplied by a unit ("0.5千", "0.01千", "0.5000千")
+            let scaled_fraction = self.scale > 0;
             let n_scale = self.significand.len() as i32 - self.point;
             if n_scale > self.scale as i32 {
                 self.point += self.scale as i32;
@@ -142,11 +144,26 @@ impl StringNumber {
             } else {
                 self.scale -= n_scale as usize;
                 self.point = -1;
-                if n_scale > 0 {
-                    // a fraction became an integer: zeros of its integer part
-                    // ("0.5" in "0.5千") are not leading zeros of a plain digit string
-                    let n_lead = self.significand.chars().take_while(|c| *c == '0').count();
-                    self.significand.drain(..n_lead);
+            }
+            if scaled_fraction {
+                // zeros in front of its integer part are not leading zeros of a plain digit string
+                let int_len = if self.point >= 0 {
+                    self.point as usize
+                } else {
+                    self.significand.len()
+                };
+                let mut n_lead = self
+                    .significand
+                    .chars()
+                    .take(int_len)
+                    .take_while(|c| *c == '0')
+                    .count();
+                if self.point < 0 && n_lead == self.significand.len() {
+                    n_lead = n_lead.saturating_sub(1);
+                }
+                self.significand.drain(..n_lead);
+                if self.point >= 0 {
+                    self.point -= n_lead as i32;
                 }
             }
         }
